@@ -6,11 +6,14 @@
 
    PROVED for the fragment `ok_block` (Compile/StmtFrag.v): assignment, op-assignment (+ - * / %), print, assert,
    expression statements, if / else-if / else, while, break, continue (through any nesting of ifs), from-loops
-   with a named fresh counter (upper bound a literal or variable, literal step), over call-free expressions,
+   with a named fresh counter (bounds and step arbitrary call-free expressions), return, over call-free expressions,
    at ANY nesting depth and program size: C01_module_correct_partial below is the full statement above on that
    fragment (same output lines; Done with an empty call stack, or the related run-time error after the same output
-   prefix).  NOT yet proved: function literals, calls, recursion, return; anonymous / colliding counters; general
-   bounds and steps.  Those are covered by the T1/T2/T3 correspondences on every run.
+   prefix); and C01_module_fun_correct_partial for modules `definitions; main` whose functions are called in
+   expression position, call earlier functions (captured) and themselves (`self`, recursion).
+   NOT yet proved: function literals elsewhere than at the start of the module, closures over data variables,
+   calls nested inside larger expressions, first-class function values; anonymous / colliding counters.
+   Those are covered by the T1/T2/T3 correspondences on every run.
 
    What else is proved and pinned here:
    - the structural half for EVERY emitted function that passes the certificate checker (C09):
@@ -20,7 +23,7 @@
    The statement-level agreement is established on every run by the correspondences T1 (compiler ==
    Compile/Compile.v), T2 (interpreter == Vm/Model.v, per instruction) and T3 (run == Lang/Eval.v). *)
 From MS Require Import Vm.Model Verify.Check Verify.Sound Compile.Compile Lang.Eval Compile.ExprBase Compile.ExprSim.
-From MS Require Import Compile.StmtMach Compile.StmtRel Compile.StmtFrag Compile.StmtSim Compile.StmtExamples.
+From MS Require Import Compile.StmtMach Compile.StmtRel Compile.StmtFrag Compile.StmtSim Compile.StmtFun Compile.StmtExamples.
 
 Check frames_safe.
 Theorem C01_frames_balanced_partial : forall rc p, checked p ->
@@ -66,7 +69,7 @@ Print Assumptions C01_expressions_partial.
    `no_claim` = the reference semantics reports FType 13 (a from-loop counter that a body turned into a non-integer) *)
 Check module_correct.
 Theorem C01_module_correct_partial : forall (path : str) (p : list stmt),
-  ok_block [] false [] p = true -> ExprBase.small (2 * length (module_code p) + 8) ->
+  ok_block [] None false [] p = true -> ExprBase.small (2 * length (module_code p) + 8) ->
   forall fuel : nat, snd (run fuel p) <> ROFuel ->
   no_claim (snd (run fuel p)) \/
   (exists fuel' : nat,
@@ -74,6 +77,26 @@ Theorem C01_module_correct_partial : forall (path : str) (p : list stmt),
      vm_outcome_ok (snd (run fuel p)) (snd (fst (execute fuel' (cprogram path p) (s_module_fn path))))).
 Proof. exact module_correct. Qed.
 Print Assumptions C01_module_correct_partial.
+(* the same statement for modules that first define functions (`f = fn(params) { body }`, body in the fragment plus
+   `return e`, possibly falling off its end; a body may call ITSELF through `self(args)` -- recursion -- and the EARLIER
+   functions of the module, which it captures) and then run module code of the fragment that CALLS them in expression
+   position (`x = f(a, b)`, `print f(a)`, `f(a)`, `return f(a)`), at any nesting depth.  fns_ok (Compile/StmtFun.v):
+   parameters are distinct source names, the body mentions only earlier functions, calls have call-free arguments *)
+Check module_fun_correct.
+Theorem C01_module_fun_correct_partial : forall (path : str) (FT : ftab) (main : list stmt),
+  fns_ok [] FT -> NoDup (fnames FT) -> ok_block FT None false [] main = true ->
+  ExprBase.small (2 * length (fmodule_code path FT main) + 8) ->
+  let p := fmodule FT main in
+  forall fuel : nat, snd (run fuel p) <> ROFuel ->
+  no_claim (snd (run fuel p)) \/
+  (exists fuel' : nat,
+     fst (fst (execute fuel' (cprogram path p) (s_module_fn path))) = fst (run fuel p) /\
+     vm_outcome_ok (snd (run fuel p)) (snd (fst (execute fuel' (cprogram path p) (s_module_fn path))))).
+Proof. exact module_fun_correct. Qed.
+Print Assumptions C01_module_fun_correct_partial.
+Check fun_sim.
+Check gcall_ok.
+Check C01_nv_stage4b. Check C01_nv_fun_theorem_applies. Check C01_nv_stage4c. Check C01_nv_rec_theorem_applies.
 (* per-block simulation with explicit code context and per-statement Hoare specifications *)
 Check cblock_correct.
 Check stmt_sim.
